@@ -543,8 +543,12 @@ where
                 state.initialized.set(0);
                 state.current_store.set(addr(self));
                 debug_assert_eq!(state.node_count_delta.get(), 0);
+                #[cfg(oxidd_verif)]
+                oxidd_core::verif::emit(oxidd_core::verif::site::ALLOC_PREPARE, &[addr(self), 1]);
                 Some(LocalStoreStateGuard(self))
             } else {
+                #[cfg(oxidd_verif)]
+                oxidd_core::verif::emit(oxidd_core::verif::site::ALLOC_PREPARE, &[addr(self), 0]);
                 None
             }
         })
@@ -593,9 +597,13 @@ where
         match res {
             Ok((id, slot)) => {
                 slot.node = ManuallyDrop::new(node);
+                #[cfg(oxidd_verif)]
+                oxidd_core::verif::emit(oxidd_core::verif::site::ALLOC_RESULT, &[addr(self), id as usize]);
                 Ok([Edge(id, PhantomData), Edge(id, PhantomData)])
             }
             Err(OutOfMemory) => {
+                #[cfg(oxidd_verif)]
+                oxidd_core::verif::emit(oxidd_core::verif::site::ALLOC_RESULT, &[addr(self), 0]);
                 node.drop_with(|e| self.drop_edge(e));
                 Err(OutOfMemory)
             }
@@ -646,6 +654,18 @@ where
             shared.gc_state = GCState::Triggered;
             self.gc_signal.1.notify_one();
         }
+        #[cfg(oxidd_verif)]
+        oxidd_core::verif::emit(
+            oxidd_core::verif::site::ALLOC_SHARED,
+            &[
+                addr(self),
+                (local.current_store.get() == addr(self)) as usize,
+                shared.node_count as usize,
+                shared.gc_state as usize,
+                shared.next_free.len(),
+                shared.allocated as usize,
+            ],
+        );
 
         if local.current_store.get() == addr(self) {
             debug_assert_eq!(local.next_free.get(), 0);
@@ -744,6 +764,19 @@ where
         // SAFETY: We don't use the node in `slot` again.
         unsafe { ManuallyDrop::take(&mut slot.node) }.drop_with(|edge| self.drop_edge(edge));
 
+        #[cfg(oxidd_verif)]
+        let verif_kind = LOCAL_STORE_STATE.with(|state| {
+            if state.current_store.get() != addr(self) {
+                2
+            } else if state.node_count_delta.get() - 1 > -(CHUNK_SIZE as i32) {
+                0
+            } else {
+                1
+            }
+        });
+        #[cfg(oxidd_verif)]
+        oxidd_core::verif::emit(oxidd_core::verif::site::ALLOC_FREE, &[addr(self), id as usize, verif_kind]);
+
         LOCAL_STORE_STATE.with(|state| {
             if state.current_store.get() == addr(self) {
                 slot.next_free = state.next_free.get();
@@ -766,10 +799,19 @@ where
                     slot.next_free = shared.next_free.pop().unwrap_or(0);
                     shared.next_free.push(id);
                     shared.node_count -= 1;
+                    #[cfg(oxidd_verif)]
+                    oxidd_core::verif::emit(
+                        oxidd_core::verif::site::ALLOC_FREE_LOCKED,
+                        &[id as usize, shared.node_count as usize, shared.next_free.len()],
+                    );
                 }
                 return_slot(&self.state, slot, id);
             }
         });
+        #[cfg(oxidd_verif)]
+        if verif_kind == 1 {
+            oxidd_core::verif::emit(oxidd_core::verif::site::ALLOC_FREE_DONE, &[addr(self), id as usize]);
+        }
     }
 
     /// Drop an edge, assuming that it isn't the last one pointing to the
@@ -897,6 +939,16 @@ where
                     shared.next_free.push(next_free);
                 }
                 shared.node_count += local.node_count_delta.replace(0) as i64;
+                #[cfg(oxidd_verif)]
+                oxidd_core::verif::emit(
+                    oxidd_core::verif::site::ALLOC_RETURN,
+                    &[
+                        next_free as usize,
+                        start as usize,
+                        shared.node_count as usize,
+                        shared.next_free.len(),
+                    ],
+                );
             });
         }
 
@@ -905,12 +957,21 @@ where
             // Always reset the current store. Otherwise, we can never use the local state
             // for a store at a different address (see [`Store::prepare_local_state()`]).
             local.current_store.set(0);
+            #[cfg(oxidd_verif)]
+            let verif_returned = local.next_free.get() != 0
+                || local.initialized.get() % CHUNK_SIZE != 0
+                || local.node_count_delta.get() != 0;
             if local.next_free.get() != 0
                 || local.initialized.get() % CHUNK_SIZE != 0
                 || local.node_count_delta.get() != 0
             {
                 return_preallocated(&self.0.inner_nodes.slots, &self.0.state, TERMINALS as u32);
             }
+            #[cfg(oxidd_verif)]
+            oxidd_core::verif::emit(
+                oxidd_core::verif::site::ALLOC_GUARD_DROP,
+                &[addr(self.0), verif_returned as usize],
+            );
         });
     }
 }
@@ -2370,8 +2431,22 @@ pub fn new_manager<
     drop(manager);
 
     let store_addr = addr(&*arc);
+    #[cfg(oxidd_verif)]
+    oxidd_core::verif::emit(
+        oxidd_core::verif::site::ALLOC_NEW,
+        &[
+            store_addr,
+            inner_node_capacity as usize,
+            TERMINALS,
+            CHUNK_SIZE as usize,
+            gc_lwm as usize,
+            gc_hwm as usize,
+        ],
+    );
     arc.workers.pool.spawn_broadcast(move |_| {
         // The workers are dedicated to this store.
+        #[cfg(oxidd_verif)]
+        oxidd_core::verif::emit(oxidd_core::verif::site::ALLOC_BIND, &[store_addr]);
         LOCAL_STORE_STATE.with(|state| state.current_store.set(store_addr))
     });
 
@@ -2381,6 +2456,8 @@ pub fn new_manager<
         .name("oxidd mi gc".to_string())
         .spawn(move || {
             // The worker is dedicated to this store.
+            #[cfg(oxidd_verif)]
+            oxidd_core::verif::emit(oxidd_core::verif::site::ALLOC_BIND, &[store_addr]);
             LOCAL_STORE_STATE.with(|state| state.current_store.set(store_addr));
 
             let store = &*gc_mref.0;
@@ -2398,6 +2475,8 @@ pub fn new_manager<
                 });
 
                 let mut shared = store.state.lock();
+                #[cfg(oxidd_verif)]
+                let verif_head = LOCAL_STORE_STATE.with(|local| local.next_free.get());
                 LOCAL_STORE_STATE.with(|local| {
                     if local.next_free.get() != 0 {
                         shared.node_count += local.node_count_delta.replace(0) as i64;
@@ -2409,6 +2488,17 @@ pub fn new_manager<
                 {
                     shared.gc_state = GCState::Init;
                 }
+                #[cfg(oxidd_verif)]
+                oxidd_core::verif::emit(
+                    oxidd_core::verif::site::ALLOC_GC_FLUSH,
+                    &[
+                        store_addr,
+                        verif_head as usize,
+                        shared.node_count as usize,
+                        shared.gc_state as usize,
+                        shared.next_free.len(),
+                    ],
+                );
             }
         })
         .unwrap();
